@@ -499,10 +499,12 @@ VSsetname(int32       vkey, /* IN: Vdata key */
     if (NULL == (w = (vsinstance_t *)HAatom_object(vkey)))
         HGOTO_ERROR(DFE_NOVS, FAIL);
 
-    /* get vdata itself and check it */
+    /* get vdata itself and check it; it is renamed through a write attachment */
     vs = w->vs;
     if (vs == NULL)
         HGOTO_ERROR(DFE_BADPTR, FAIL);
+    if (vs->access != 'w')
+        HGOTO_ERROR(DFE_BADACC, FAIL);
 
     /* get current length of vdata name */
     curr_len = (int32)strnlen(vs->vsname, VSNAMELENMAX + 1);
